@@ -69,6 +69,12 @@ def expr_case(draw, max_depth=4, const_calls=True):
                                     ["m_in", "m_in2", "m"], ["tau", "tau1", "tau_e"], ["weight", "weight_in0", "w"]]))
         names = list(dict.fromkeys(fam[:nvars] + names))[:max(nvars, 2)]
     ast, _ = draw(E.expr_strategy(names, max_depth=max_depth, const_calls=const_calls))
+    if draw(st.integers(0, 14)) == 0:
+        # right-hand sides without any variable (numeric literals and the documented constants only), also negative
+        c = draw(st.sampled_from([["const", "pi"], ["const", "E"], ["num", 2.0], ["num", 0.5], ["num", 3.25]]))
+        d = draw(st.sampled_from([["num", 2.0], ["const", "pi"], ["num", 1.5]]))
+        ast = draw(st.sampled_from([["neg", c], c, ["bin", "*", ["neg", d], c], ["bin", "-", c, d], ["neg", ["bin", "/", c, d]],
+                                    ["bin", "*", d, ["neg", c]], ["neg", ["bin", "+", c, d]], ["neg", ["pow", c, 2]]]))
     fl = st.floats(-2.5, 2.5, allow_nan=False).map(lambda v: round(v, 3))
     probes = draw(st.lists(st.lists(fl, min_size=len(names), max_size=len(names)), min_size=3, max_size=3))
     return {"ast": ast, "names": names, "probes": probes, "k": draw(st.integers(0, 1000)),
@@ -87,6 +93,8 @@ def labels_of(case):
         lab.append("pow")
     if any(n[0] == "const" for n in _walk(ast)):
         lab.append("const")
+    if not E.variables(ast):
+        lab.append("constant_rhs")
     return lab
 
 
